@@ -400,3 +400,18 @@ Proof.
   eexists; split; [vm_compute; reflexivity|reflexivity].
 Qed.
 Print Assumptions C16_trk_byte_order_nonvacuous.
+
+(* the converse of C16_abandoned_is_prefix is false, as its comment says: an abandoned pass
+   succeeds on a file whose eager load fails (two whole records followed by a torn count field) *)
+Theorem C16_abandoned_may_succeed_where_eager_fails : exists hdr f,
+  (exists e, trk_read_fo hdr f = Err e)
+  /\ trk_abandon_fo hdr 1 f = Ok (firstn 1 bo_sl, f)
+  /\ trk_abandon_fo hdr 2 f = Ok (bo_sl, f)
+  /\ (exists e, trk_abandon_fo hdr 3 f = Err e).
+Proof.
+  exists (mkInfo false 0 4 2 [] [], 0), (mkF 0 (flat_map (trk_record false) bo_sl ++ [1; 0])).
+  split; [eexists; vm_compute; reflexivity|].
+  split; [vm_compute; reflexivity|]. split; [vm_compute; reflexivity|].
+  eexists; vm_compute; reflexivity.
+Qed.
+Print Assumptions C16_abandoned_may_succeed_where_eager_fails.
